@@ -51,6 +51,26 @@ CHECKS.update({
     ),
 })
 
+CHECKS.update({
+    'C13': dict(
+        script='checks/c13.py', category='model_checking', design='DESIGN.md §4 C13',
+        text=('Inductive step from an arbitrary invariant state plus base case plus k-step bounded model checking of '
+              'the real IR of SystemClock::setNow/syncNow/getNow with T, the 64-bit millisecond counter, the 16-bit '
+              'phase and every poll gap (0..64536 ms) as solver variables; the catch-up loop is unwound with an '
+              'unwinding assertion (70 >= 66).'),
+        technique='symbolic execution of clang LLVM IR (llsym) + SMT: inductive invariant step + k-step BMC',
+    ),
+    'C18': dict(
+        script='checks/c18.py', category='model_checking', design='DESIGN.md §4 C18',
+        text=('BasicZoneProcessor::calcStartDayOfMonth on the real IR with year (1873..2126), weekday and day-of-month '
+              'symbolic, month x expression kind a driver case split, compared by SMT with the table-driven calendar '
+              'specification; the admitted day ranges are obtained by running the current transformer filter code; '
+              'admitted tuples are shown never to resolve into another year. The Python twin calc_day_of_month is '
+              'compared with the same specification by checks/c18 (Python part) when pysym is available.'),
+        technique='symbolic execution of clang LLVM IR (llsym) + SMT against a calendar specification',
+    ),
+})
+
 NOT_APPLICABLE = {
     'C19': ('the generators are sampling loops around pytz/dateutil tzinfo objects backed by binary tz files and '
             'C-implemented datetime; neither CrossHair nor our symbolic executor can make those symbolic, and a '
